@@ -78,4 +78,9 @@ Example C27_example :
    match resolve false wit_env [wit_C2; wit_C3] 1000, resolve false e' [wit_C3; wit_C2] 1000 with
    | (st, [], true), (st', [], true) => st = st'
    | _, _ => False end).
-Proof. split; [do 4 eexists; repeat split; try (vm_compute; reflexivity); discriminate|vm_compute; reflexivity]. Qed.
+Proof.
+  split.
+  - destruct repaired_rejects as ((st & errs & H1 & N1) & (st' & errs' & H2 & N2) & _).
+    exists st, errs, st', errs'. repeat split; assumption.
+  - vm_compute. reflexivity.
+Qed.
